@@ -253,6 +253,7 @@ var c01Fixed = []gen.ItemSpec{
 	// unnamed struct types whose methods are promoted from embedded fields; typed strings of html/template and encoding/json
 	{K: "anonG", Str: "promoted GoString"}, {K: "anonPS", Str: "promoted String through an embedded pointer"}, {K: "anonSE", Str: "promoted String beats promoted Error"},
 	{K: "tplhtml", Str: "<b>bold</b> & more"}, {K: "tpljs", Str: "alert(1)"}, {K: "tplurl", Str: "javascript:x"}, {K: "tplattr", Str: "onclick=\"x\""}, {K: "jsonnumber", Str: "12.50"},
+	{K: "ifacestruct", Str: "tags"}, {K: "ifacearr", Str: "x"},
 	// the remaining kinds
 	{K: "int8", Num: -8}, {K: "int16", Num: 300}, {K: "uint16", Num: 65535}, {K: "uint32", Num: 65}, {K: "uint64", Num: 1 << 62}, {K: "uintptr", Num: 4096}, {K: "complex64", Flt: 1.5, Num: 2}, {K: "array", Num: 1},
 }
@@ -275,7 +276,7 @@ func init() {
 	register(&Prop{
 		ID:    "C01",
 		Level: "exploration",
-		Rule: "phase 0 (exhaustive): all 64 generated item types (every subset of {String,GoString,Error} x every subset of {Height,TerminalCellWidth}, value receivers and pointer receivers) x {passed by value, passed by pointer} x 4 field patterns (all distinct, only GoString non-empty, all empty, multi-line/invalid/wide); phase 1 (exhaustive): 74 fixed basic items (nil, strings, 8 runes incl. 0, surrogate, U+10FFFF, out of range, negative; every integer/float/bool/complex kind incl. float32, both signed zeros in both orders, NaN and Inf; named string/rune/int types; bytes, slice, map, struct, *struct, error values, time.Duration, nil pointer with nil-safe String) bare, nested in a Cell and in a *Cell; " +
+		Rule: "phase 0 (exhaustive): all 64 generated item types (every subset of {String,GoString,Error} x every subset of {Height,TerminalCellWidth}, value receivers and pointer receivers) x {passed by value, passed by pointer} x 4 field patterns (all distinct, only GoString non-empty, all empty, multi-line/invalid/wide); phase 1 (exhaustive): 76 fixed basic items (nil, strings, 8 runes incl. 0, surrogate, U+10FFFF, out of range, negative; every integer/float/bool/complex kind incl. float32, both signed zeros in both orders, NaN and Inf; named string/rune/int types; bytes, slice, map, struct, *struct, error values, time.Duration, nil pointer with nil-safe String) bare, nested in a Cell and in a *Cell; " +
 			"phase 2: random items from the whole zoo with texts of 0-6 atoms from all 13 alphabets, nested to depth 3. Each item: NewCell -> String/Empty/Item; the same in a table via CellAt and through the CSV renderer; for items mutable in place 3 rounds of mutate / observe unchanged / Update / observe new. " +
 			"Distinct = distinct (kind, type code, passing mode, expected text); non-trivial = not a plain string.",
 		Assumptions: []string{
@@ -285,7 +286,7 @@ func init() {
 		},
 		Phases: []Phase{
 			{Name: "64 generated types x by-value/by-pointer x 4 field patterns", Exhaustive: true, N: Fixed(nt*2*4, nt*2*4), Run: c01Types},
-			{Name: "74 fixed basic items bare / in Cell / in *Cell", Exhaustive: true, N: Fixed(len(c01Fixed)*3, len(c01Fixed)*3), Run: c01FixedRun},
+			{Name: "76 fixed basic items bare / in Cell / in *Cell", Exhaustive: true, N: Fixed(len(c01Fixed)*3, len(c01Fixed)*3), Run: c01FixedRun},
 			{Name: "random items from the whole zoo", N: Fixed(5000, 5000000), Run: func(c *Ctx, i int, r *gen.R) {
 				spec := r.AnyItem(c01Fam, 6, 3)
 				c01Check(c, &spec, r)
